@@ -19,7 +19,7 @@ LBids(q) == [k \in {<<r.b, r.n>> : r \in SeqToSet(q)} |->
 LoggedPost(p) == /\ names' = p.names /\ sale' = p.sale /\ bids' = LBids(p.bids)
                  /\ primary' = p.primary /\ inited' = SeqToSet(p.inited)
                  /\ bal' = p.bal /\ height' = p.height
-Lbl(e) == [f \in (DOMAIN e) \ {"post", "x"} |-> e[f]]
+Lbl(e) == [f \in (DOMAIN e) \ {"post", "x", "base"} |-> e[f]]
 
 SpecAct(e) ==
   CASE e.a = "register" -> Register(e.s, e.n, e.len, e.tld, e.y, e.data, e.prim, e.yp)
@@ -47,7 +47,10 @@ NT08 == \E n \in DOMAIN names : Live(n) /\
 NT09 == last'.a \in {"cancel", "accept", "bid"} /\ last'.ok /\ bids # <<>>
 NT16 == last'.a = "register" /\ last'.ok
 
-Props == /\ Chk("C08Step", C08Step) /\ Chk("C09Step", C09Step) /\ Chk("C16Step", C16Step)
+\* the quoted yearly price is the listed TLD base price (chain table, logged) times the length tier
+C16_Listed == (E.a = "register") => E.yp = E.base * Tier(E.len)
+
+Props == /\ Chk("C08Step", C08Step) /\ Chk("C09Step", C09Step) /\ Chk("C16Step", C16Step) /\ Chk("C16_Listed", C16_Listed)
          /\ Chk("C09_Escrow", C09_Escrow => C09_Escrow') /\ Chk("TypeOK", TypeOK')
          /\ NT("C08", NT08) /\ NT("C09", NT09) /\ NT("C16", NT16)
 
